@@ -243,54 +243,49 @@ def oracle(prev, cur, pats):
     SD = diff_paths(sh(L0), sh(L1))
     must_S = True if SD else (False if sh(R0) == sh(R1) else None)
     hints = dict(changed=D, shape_changed=SD)
-    # classification of a missed change (for the finding key)
+    # classification of the changed paths (for the finding key of a missed change): which known finding, if any,
+    # explains that this path's change is not seen
     def only_mode(k):
         a, b = L0.get(k), L1.get(k)
         return a is not None and b is not None and a[:3] + a[4:] == b[:3] + b[4:] and a[3] != b[3]
     def involves_link(k):
-        # the object stays, but it is (or becomes) a symbolic link: retype link <-> file, re-spelled target
+        # the object stays, but it is (or becomes) a symbolic link: retype link <-> file, re-spelled target, touched link
         a, b = L0.get(k), L1.get(k)
         return a is not None and b is not None and (a[0] == "l" or b[0] == "l")
+    def parent_of(k):
+        return k.rsplit("/", 1)[0] if "/" in k else ""
     def parent_unchanged(k):
-        par = k.rsplit("/", 1)[0] if "/" in k else ""
+        par = parent_of(k)
         return par in L0 and L0.get(par) == L1.get(par)
+    hints["cat"] = {k: ("mode" if only_mode(k) else "link" if involves_link(k) else None) for k in set(D) | set(SD)}
+    # entries that appeared while the record of their directory stayed the same: a stored filtered listing does not have them
+    hints["added_unseen"] = [k for k in D if k not in L0 and parent_unchanged(k)] if pats else []
+    hints["removed"] = [k for k in D if k not in L1]
+    hints["root_changed"] = L0.get("") != L1.get("")
     dangling_dirs = set()
     for R in (prev[1], cur[1]):
         for q, v in R.items():
             if v == "missing":
-                dangling_dirs.add(q.rsplit("/", 1)[0] if "/" in q else "")
+                dangling_dirs.add(parent_of(q))
     def beneath_dangling_link(k):
-        # some directory on the way down to k holds an entry whose stat fails
         parts = k.split("/")
         return any("/".join(parts[:j]) in dangling_dirs for j in range(len(parts)))
-    hints["mode_only"] = bool(D) and all(only_mode(k) for k in D)
-    hints["links_only"] = bool(D) and all(involves_link(k) for k in D)
-    hints["shape_links_only"] = bool(SD) and all(involves_link(k) for k in SD)
-    added_removed = [k for k in D if (k in L0) != (k in L1)]
-    hints["stale_listing"] = bool(pats) and any(parent_unchanged(k) for k in added_removed)
     hints["truncated_listing"] = bool(pats) and any(beneath_dangling_link(k) for k in D)
-    hints["stale_parents"] = sorted(set((k.rsplit("/", 1)[0] if "/" in k else "") for k in added_removed if parent_unchanged(k))) if pats else []
-    hints["root_changed"] = L0.get("") != L1.get("")
     return must_T, must_S, hints
 
-def missed_key(cmd, hints):
-    if cmd == "tree":
-        if hints["mode_only"]:
-            return "tree-misses-mode-change"
-        if hints["links_only"]:
-            return "symlink-seen-through-tree"
+def missed_key(cmd, hints, cats):
+    """cats: path -> 'mode' | 'link' | 'stale' | None for the paths whose change the command had to see"""
+    ks = hints["changed"] if cmd == "tree" else hints["shape_changed"]
+    got = [cats.get(k) for k in ks]
+    if any(c is None for c in got):
         if hints["truncated_listing"]:
-            return "filtered-listing-truncated-tree"
-        if hints["stale_listing"]:
-            return "filtered-listing-stale-tree"
-        return "tree-missed-change"
-    if hints["shape_links_only"]:
-        return "symlink-seen-through-structure"
-    if hints["truncated_listing"]:
-        return "filtered-listing-truncated-structure"
-    if hints["stale_listing"]:
-        return "filtered-listing-stale-structure"
-    return "structure-missed-change"
+            return "filtered-listing-truncated-%s" % cmd
+        return "%s-missed-change" % cmd
+    if "mode" in got:
+        return "tree-misses-mode-change" if cmd == "tree" else "structure-missed-change"
+    if "link" in got:
+        return "symlink-seen-through-%s" % cmd
+    return "filtered-listing-stale-%s" % cmd
 
 # ------------------------------------------------------------------ generation
 
@@ -576,26 +571,33 @@ def judge(chk, sc, records, idx):
     if r0["rc"] != 0 or not (r0["ranT"] and r0["ranS"]):
         chk.violation("initial-build", "the first build failed or did not run both commands (rc=%s)" % r0["rc"], rp(r0), found_input=True, broken="c12 harness expectation")
         return 0
-    stale_dirs = set()      # directories whose stored filtered listing is known to be out of date (finding D3)
+    unseen = {}      # directory -> names that appeared while its record stayed the same (finding D3: not in the stored listing)
     for rec in records[1:]:
         unlisted = False
         fam = sc.get("family", "core")
         h = rec["hints"]
-        stale_dirs -= set(h["changed"])
+        for k in h["changed"]:
+            unseen.pop(k, None)           # the directory's own record changed: it is listed again
         if h["root_changed"]:
-            stale_dirs.discard("")
-        stale_dirs |= set(h["stale_parents"])
-        def under_stale(k):
+            unseen.pop("", None)
+        for k in h["added_unseen"]:
+            par, name = (k.rsplit("/", 1) if "/" in k else ("", k))
+            unseen.setdefault(par, set()).add(name)
+        def stale(k):
             parts = k.split("/")
-            return any("/".join(parts[:j]) in stale_dirs for j in range(len(parts)))
-        h["stale_listing"] = h["stale_listing"] or (bool(sc["pats"]) and any(under_stale(k) for k in h["changed"]))
+            return any(parts[j] in unseen.get("/".join(parts[:j]), ()) for j in range(len(parts)))
+        cats = {k: (c or ("stale" if stale(k) else None)) for k, c in h["cat"].items()}
+        rec["cats"] = cats
+        for k in h["removed"]:
+            par, name = (k.rsplit("/", 1) if "/" in k else ("", k))
+            unseen.get(par, set()).discard(name)
         key = (fam, bool(sc["pats"]), tuple(rec["labels"]), rec["ranT"], rec["ranS"])
         chk.count(key if (rec["must_T"] or rec["must_S"]) else None)
         if rec["rc"] != 0:
             unlisted |= chk.violation("build-failed", "llbuild exited with %d during an incremental build" % rec["rc"], rp(rec), found_input=True, broken="c12 oracle")
         for cmd, ran, must in (("tree", rec["ranT"], rec["must_T"]), ("structure", rec["ranS"], rec["must_S"])):
             if must is True and not ran:
-                key_ = missed_key(cmd, rec["hints"])
+                key_ = missed_key(cmd, rec["hints"], cats)
                 what = "the command with the directory-%s input did not run again after: %s (changed: %s)" % (cmd, "; ".join(rec["labels"]), ", ".join((rec["hints"]["changed"] if cmd == "tree" else rec["hints"]["shape_changed"])[:4]))
                 unlisted |= chk.violation(key_, what, rp(rec, dict(command=cmd)), found_input=True, broken="c12 oracle (detects) on llbuild buildsystem build")
             elif must is False and ran:
